@@ -1207,6 +1207,31 @@ class Gen:
             return
         g1 = rng.choice(c)
         m1 = self.w.slots[g1].model
+        if m1.has_changes and not self.w.slots[g1].locks and rng.random() < 0.5:
+            # several stereo changes of one kind (they share ligands in small graphs)
+            role = rng.choice(ROLES).lower()
+            for _ in range(rng.randint(1, 4)):
+                sl = self.w.graph(g1)
+                if sl is None or sl.locks:
+                    break
+                m = sl.model
+                if rng.random() < 0.5:
+                    free = [a for a in m.sorted_atoms() if a not in m.achange]
+                    d = self.atom_desc(m, centre=rng.choice(free), allow_none=False) if free else None
+                    if d:
+                        op = dict(k="set_achange", s=g1, broken=None, fleeting=None, formed=None)
+                        op[role] = model.list_desc(d)
+                        yield op
+                else:
+                    free = [b for b in m.sorted_bonds() if B(*b) not in m.bchange]
+                    d = self.bond_desc(m, bond=rng.choice(free), allow_none=False) if free else None
+                    if d:
+                        op = dict(k="set_bchange", s=g1, broken=None, fleeting=None, formed=None)
+                        op[role] = model.list_desc(d)
+                        yield op
+            if self.w.graph(g1) is None:
+                return
+            m1 = self.w.slots[g1].model
         r = rng.random()
         g2 = g1
         if r < 0.45 and self.room():
@@ -1221,7 +1246,7 @@ class Gen:
             elif rng.random() < 0.25:
                 yield self.rand_mutator(g2)
         elif r < 0.6:
-            same = [x for x in c if x != g1 and self.w.slots[x].model.kind == m1.kind]
+            same = [x for x in c if x != g1 and self.w.graph(x) is not None and self.w.slots[x].model.kind == m1.kind]
             if same:
                 g2 = rng.choice(same)
         if self.w.graph(g1) is None or self.w.graph(g2) is None:
